@@ -31,8 +31,9 @@ RULE = ("op lines come from one seeded PRNG: transactions of 1..6 inputs and 0..
 TRUSTED = [
     "SHA-256 / RIPEMD-160 instances of the hash parameters: executable Lean models validated against hashlib each run",
     "Model/C09/Impl.lean (btclib-shaped functions incl. exceptions, from_tx and the PSBT dispatch) is tied to "
-    "btclib by correspondence; its agreement with the proved specification Model/C09/Sighash.lean is checked by the "
-    "driver on every accepted line (`specdiff`) and proved only for the theorems listed in Props/C09.lean",
+    "btclib by correspondence; that its legacy / segwit_v0 / taproot compute the digests of the proved specification "
+    "Model/C09/Sighash.lean is a theorem (Props/C09.lean, layer tie) and re-checked by the driver on every accepted "
+    "line (`specdiff`)",
     "PSBT parsing/serialization (Psbt, PsbtView maps) is C05/C11's: here a psbt is built from the fields on the line",
 ]
 ASSUMPTIONS = ["collision resistance of SHA-256 is not assumed by any theorem: the commitment theorems construct the "
